@@ -15,6 +15,7 @@ import (
 	"strings"
 
 	wrapping "github.com/hashicorp/go-kms-wrapping/v2"
+	"github.com/hashicorp/go-kms-wrapping/v2/extras/multi"
 	"github.com/hashicorp/nodeenrollment"
 	"github.com/hashicorp/nodeenrollment/protocol"
 	"github.com/hashicorp/nodeenrollment/registration"
@@ -39,12 +40,19 @@ type kase struct {
 	Retry   bool   `json:"retry"`
 	// Aged: the enrollment happens three virtual days after the roots were
 	// created (and the final dial a day later) instead of right away
-	Aged bool  `json:"aged_roots"`
-	Seed int64 `json:"seed"`
+	Aged bool `json:"aged_roots"`
+	// Late: the enrollment happens fifteen virtual days after the roots were
+	// created and before the operator's next rotation call: the current root
+	// has expired, the next one is valid (implies a virtual clock)
+	Late bool `json:"late_rotation,omitempty"`
+	// Pooled: the server's storage wrapper is a pool whose encrypting key is
+	// rotated between the authorization and the fetch (needs Wrapper)
+	Pooled bool  `json:"pooled_wrapper,omitempty"`
+	Seed   int64 `json:"seed"`
 }
 
 func (k kase) String() string {
-	return fmt.Sprintf("flow=%s backend=%s storage-wrapper=%v state=%v retry=%v aged-roots=%v", k.Flow, k.Backend, k.Wrapper, k.State, k.Retry, k.Aged)
+	return fmt.Sprintf("flow=%s backend=%s storage-wrapper=%v pooled=%v state=%v retry=%v aged-roots=%v late-rotation=%v", k.Flow, k.Backend, k.Wrapper, k.Pooled, k.State, k.Retry, k.Aged, k.Late)
 }
 
 var dirSeq int
@@ -73,11 +81,12 @@ func newBackend(name string) (nodeenrollment.Storage, func()) {
 type world struct {
 	seed   int64
 	sw, nw wrapping.Wrapper // server / node storage wrappers
+	sw2    wrapping.Wrapper // the server's next KMS key (pooled configurations)
 	rw     wrapping.Wrapper // registration wrapper
 }
 
 func newWorld(seed int64) *world {
-	return &world{seed: seed, sw: harness.Wrapper("server-storage", seed), nw: harness.Wrapper("node-storage", seed), rw: harness.Wrapper("registration", seed)}
+	return &world{seed: seed, sw: harness.Wrapper("server-storage", seed), sw2: harness.Wrapper("server-storage-next-key", seed), nw: harness.Wrapper("node-storage", seed), rw: harness.Wrapper("registration", seed)}
 }
 
 var (
@@ -113,8 +122,12 @@ func (w *world) otherResponse(srv nodeenrollment.Storage, sopt []nodeenrollment.
 func (w *world) one(k kase, r *engine.Report) (string, string) {
 	vclock.Reset()
 	defer vclock.Reset()
-	if k.Aged {
+	if k.Aged || k.Late {
 		vclock.Freeze(harness.T0)
+	}
+	enrollDay := 3
+	if k.Late {
+		enrollDay = 15
 	}
 	fail := func(sig, format string, a ...any) (string, string) {
 		return sig + ":" + k.Flow, "[" + k.String() + "] " + fmt.Sprintf(format, a...)
@@ -123,16 +136,25 @@ func (w *world) one(k kase, r *engine.Report) (string, string) {
 	defer cleanup()
 	node := harness.NewMemStore()
 	var sopt, nopt []nodeenrollment.Option
+	var pool *multi.PooledWrapper
 	if k.Wrapper {
-		sopt = append(sopt, nodeenrollment.WithStorageWrapper(w.sw))
+		var sw wrapping.Wrapper = w.sw
+		if k.Pooled {
+			var err error
+			if pool, err = multi.NewPooledWrapper(harness.Ctx, w.sw); err != nil {
+				panic(err)
+			}
+			sw = pool
+		}
+		sopt = append(sopt, nodeenrollment.WithStorageWrapper(sw))
 		nopt = append(nopt, nodeenrollment.WithStorageWrapper(w.nw))
 	}
 	roots, err := rotation.RotateRootCertificates(harness.Ctx, srv, sopt...)
 	if err != nil {
 		return fail("setup", "root creation failed: %v", err)
 	}
-	if k.Aged {
-		vclock.Freeze(harness.T0.AddDate(0, 0, 3))
+	if k.Aged || k.Late {
+		vclock.Freeze(harness.T0.AddDate(0, 0, enrollDay))
 	}
 	// a registered upstream node R for the re-wrapped flow
 	rk, re := harness.NewCertKey("R", w.seed), harness.NewEncKey("R-enc", w.seed)
@@ -233,6 +255,14 @@ func (w *world) one(k kase, r *engine.Report) (string, string) {
 		req.RewrappingKeyId = rk.KeyId
 	}
 
+	// ---- the KMS key behind the server's storage wrapper is rotated: records
+	// written so far stay readable through the pool
+	if pool != nil {
+		if _, err := pool.SetEncryptingWrapper(harness.Ctx, w.sw2); err != nil {
+			panic(err)
+		}
+	}
+
 	// ---- fetch (and the honest retry)
 	resp, err := registration.FetchNodeCredentials(harness.Ctx, srv, req, fetchOpt...)
 	if err != nil || !harness.HasCreds(resp) {
@@ -329,7 +359,9 @@ func (w *world) one(k kase, r *engine.Report) (string, string) {
 			return fail("leaf-ski", "leaf %d has a subject key id other than the node's key", i)
 		case leaf.Subject.CommonName != keyId || !hasName:
 			return fail("leaf-name", "leaf %d is not named by the node's key id", i)
-		case leaf.NotBefore.Before(ca.NotBefore) || leaf.NotAfter.After(ca.NotAfter):
+		case leaf.NotAfter.After(ca.NotAfter) || (!leaf.NotBefore.After(ca.NotAfter) && leaf.NotBefore.Before(ca.NotBefore)):
+			// (a leaf under a root that has already expired has no instant at
+			// which it is valid; only "does not outlive its root" applies)
 			return fail("leaf-validity", "leaf %d is valid %v..%v, outside its root's %v..%v", i, leaf.NotBefore, leaf.NotAfter, ca.NotBefore, ca.NotAfter)
 		}
 	}
@@ -414,8 +446,8 @@ func (w *world) one(k kase, r *engine.Report) (string, string) {
 	if err != nil || len(confs) == 0 {
 		return fail("client-configs", "stored credentials yield no client TLS configuration: %v", err)
 	}
-	if k.Aged {
-		vclock.Freeze(harness.T0.AddDate(0, 0, 4))
+	if k.Aged || k.Late {
+		vclock.Freeze(harness.T0.AddDate(0, 0, enrollDay+1))
 	}
 	var derr error
 	rs, serr := harness.Serve(harness.ServerConfig{Storage: srv, Options: sopt}, func(addr string) {
@@ -452,7 +484,11 @@ func cases() []kase {
 						if f == "token" && re {
 							continue // a token is single-use: the honest retry of a token fetch must fail (C06)
 						}
-						out = append(out, kase{Flow: f, Backend: b, Wrapper: w, State: s, Retry: re}, kase{Flow: f, Backend: b, Wrapper: w, State: s, Retry: re, Aged: true})
+						out = append(out, kase{Flow: f, Backend: b, Wrapper: w, State: s, Retry: re}, kase{Flow: f, Backend: b, Wrapper: w, State: s, Retry: re, Aged: true},
+							kase{Flow: f, Backend: b, Wrapper: w, State: s, Retry: re, Late: true})
+						if w {
+							out = append(out, kase{Flow: f, Backend: b, Wrapper: w, Pooled: true, State: s, Retry: re})
+						}
 					}
 				}
 			}
@@ -497,7 +533,7 @@ func init() {
 	engine.Register(&engine.CheckDef{
 		ID:    "C04",
 		Level: "exploration",
-		Rule: "flow {operator-authorized, activation token, wrapper, re-wrapped by an upstream node} x storage back end {inmem, file, store-once} x storage wrapper {off,on} x application state / parameters {none, some} x honest retry {no, yes; not for tokens} = 84 configurations, each enrolled right after root creation and three virtual days later (168 runs), through the real node-side and server-side API; in each, 6 node-side substitutions (other decrypting key, another node's ciphertext / server key / whole response, different nonce, a foreign response for the node's key echoing another nonce - also after the enrollment completed), a fetch re-signed over another encryption key and a final real Dial to a listener over the same store; every issued certificate is parsed and checked; " +
+		Rule: "flow {operator-authorized, activation token, wrapper, re-wrapped by an upstream node} x storage back end {inmem, file, store-once} x storage wrapper {off,on} x application state / parameters {none, some} x honest retry {no, yes; not for tokens} = 84 configurations, each enrolled right after root creation, three virtual days later and fifteen virtual days later (the current root expired, the next valid, before the next rotation call), plus the 42 wrapper configurations with a pooled storage wrapper whose encrypting key is rotated between authorization and fetch (294 runs), through the real node-side and server-side API; in each, 6 node-side substitutions (other decrypting key, another node's ciphertext / server key / whole response, different nonce, a foreign response for the node's key echoing another nonce - also after the enrollment completed), a fetch re-signed over another encryption key and a final real Dial to a listener over the same store; every issued certificate is parsed and checked; " +
 			"distinct_nontrivial counts configurations (distinct by construction) that ran to the final dial",
 		Assumptions: []string{"keys of an enrollment are freshly random (the library's own generators); the check is about bindings, not about key values"},
 		Shards:      func(c *engine.Ctx) int { return 12 },
